@@ -4,7 +4,34 @@ import A5.Lemmas.HierRefineChildren
 `Path.cellToParent_enc` (`HierRefineParent`) and `Path.cellToChildren_enc` (`HierRefineChildren`); this file adds
 the list-level facts about `descendantsOrdered` that the property files need (core-only). -/
 namespace A5
+
+theorem flatMapOutcome_map_ok {α α' β : Type} (f : α → Outcome (List β)) (e : α' → α) (g : α' → List β)
+    (l : List α') (h : ∀ a ∈ l, f (e a) = .ok (g a)) : flatMapOutcome f (l.map e) = .ok (l.flatMap g) := by
+  induction l with
+  | nil => rfl
+  | cons a l ih =>
+    simp only [List.map_cons, flatMapOutcome]
+    rewrite [h a (List.mem_cons_self ..), ih (fun b hb => h b (List.mem_cons_of_mem _ hb))]
+    simp only [Outcome.bind_ok, List.flatMap_cons]
+
 namespace Path
+
+theorem res_eq_neg_one {p : Path} (h : res p = -1) : p = world := by
+  cases p with
+  | world => rfl
+  | face f => simp only [res] at h; omega
+  | deep f k ds => simp only [res] at h; omega
+
+theorem ancestorAt_neg_one (p : Path) : ancestorAt p (-1) = world := by
+  cases p <;> simp [ancestorAt]
+
+/-- ancestor lookup in its legal range `-1 ≤ a ≤ res p`, without case distinction -/
+theorem cellToParent_anc {p : Path} (hp : WF p) (a : Int) (h1 : -1 ≤ a) (h2 : a ≤ res p) :
+    cellToParent (enc p) (some a) = .ok (enc (ancestorAt p a)) := by
+  rewrite [cellToParent_enc hp]
+  by_cases h : a = -1
+  · rewrite [if_pos h, h, ancestorAt_neg_one]; rfl
+  · rewrite [if_neg h, if_neg (by omega), if_neg (by omega)]; rfl
 
 theorem mem_ordered {p : Path} (hp : WF p) {r : Int} {d : Path} (h : d ∈ descendantsOrdered p r) :
     d ∈ descendantsAt p r := (mem_descendantsOrdered_iff p hp r d).1 h
